@@ -11,6 +11,8 @@ from ..ref import bits
 from ..ref import stream as rs
 
 LEVEL = "exploration"
+TECHNIQUE = 'runtime monitoring: history + model (prefix/lower/upper-bound checker after every read) over exhaustive single and double cuts of serialised streams; conservation monitor on NetSource; loopback end-to-end run of TcpClient.run()'
+LEVEL_TEXT = 'Fault-free delivery histories: every single cut and every pair of cuts of each generated stream is executed (exhaustive for those streams), multi-cuts sampled; the end-to-end tier judges the recv() segmentation actually observed.'
 LEVEL_RULE = (
     "TcpClient.read_beast_buffer / read_beast_buffer_rssi_piaware / read_raw_buffer / read_skysense_buffer driven on the "
     "real parser object: a known frame list (unique payloads; 0x1A forced into timestamp, signal level, every message byte "
